@@ -62,6 +62,15 @@ Section Exec.
   Variable crash : N -> R.
   Variable nofuel : R.
 
+  (* for i, x := range xs: the body gets the state, the index, the element and the continuation that
+     goes on with the next element *)
+  Definition iter {X} (body : S -> Z -> X -> (S -> R) -> R) (next : S -> R) : list X -> Z -> S -> R :=
+    fix it (xs : list X) (i : Z) (σ : S) {struct xs} : R :=
+      match xs with
+      | [] => next σ
+      | x :: t => body σ i x (fun σ' => it t (i + 1)%Z σ')
+      end.
+
   Fixpoint exec (fuel : nat) (l : list (cstmt S R)) (σ : S) (k brk cnt : S -> R) {struct fuel} : R :=
     match fuel with
     | O => nofuel
@@ -91,24 +100,12 @@ Section Exec.
                | CRangeN _ over bnd body =>
                    match over σ with
                    | PPanic w => crash w
-                   | POk xs =>
-                       (fix it (xs : list N) (i : Z) (σ : S) {struct xs} : R :=
-                          match xs with
-                          | [] => next σ
-                          | x :: t => let again := fun σ' => it t (i + 1)%Z σ' in
-                                      exec f body (bnd σ i x) again next again
-                          end) xs 0%Z σ
+                   | POk xs => iter (fun σ i x again => exec f body (bnd σ i x) again next again) next xs 0%Z σ
                    end
                | CRangeZ _ over bnd body =>
                    match over σ with
                    | PPanic w => crash w
-                   | POk xs =>
-                       (fix it (xs : list Z) (i : Z) (σ : S) {struct xs} : R :=
-                          match xs with
-                          | [] => next σ
-                          | x :: t => let again := fun σ' => it t (i + 1)%Z σ' in
-                                      exec f body (bnd σ i x) again next again
-                          end) xs 0%Z σ
+                   | POk xs => iter (fun σ i x again => exec f body (bnd σ i x) again next again) next xs 0%Z σ
                    end
                | CBreak => brk σ
                | CContinue => cnt σ
